@@ -311,3 +311,115 @@ func VerifC02Recheck() {
 	lib.VerifAssert(p.mailbox.Main.Item() == nil && p.mailbox.System.Item() == nil && p.mailbox.Urgent.Item() == nil && p.mailbox.Log.Item() == nil, "no message is left behind with the process asleep")
 	lib.VerifReach("late message handled")
 }
+
+// --- meta-processes: the same window for meta.handle() ---
+
+type c02MetaB struct {
+	handled, calls, terms int
+}
+
+func (b *c02MetaB) Init(process gen.MetaProcess) error { return nil }
+func (b *c02MetaB) Start() error                       { return nil }
+func (b *c02MetaB) HandleMessage(from gen.PID, message any) error {
+	b.handled++
+	return nil
+}
+func (b *c02MetaB) HandleCall(from gen.PID, ref gen.Ref, request any) (any, error) {
+	b.calls++
+	return nil, nil
+}
+func (b *c02MetaB) Terminate(reason error)                                    { b.terms++ }
+func (b *c02MetaB) HandleInspect(from gen.PID, item ...string) map[string]string { return nil }
+
+// c02Window wraps a real queue of the meta-process: each time the queue is about to answer "empty"
+// (Pop without a value, Item without an item) a shared countdown is decremented, and when it reaches
+// zero `fire` runs first - i.e. something happens right after that look at the queue.
+type c02Window struct {
+	lib.QueueMPSC
+	count *int
+	fire  func()
+}
+
+func (q *c02Window) look() {
+	*q.count--
+	if *q.count == 0 {
+		q.fire()
+	}
+}
+func (q *c02Window) Pop() (any, bool) {
+	v, ok := q.QueueMPSC.Pop()
+	if ok == false {
+		q.look()
+	}
+	return v, ok
+}
+func (q *c02Window) Item() lib.ItemMPSC {
+	it := q.QueueMPSC.Item()
+	if it == nil {
+		q.look()
+	}
+	return it
+}
+
+// VerifC02MetaRecheck: a meta-process (alias-addressed) with 0 or 1 queued message is activated by the
+// real meta.handle(); right after a symbolically chosen look of its runner at an empty queue (each Pop
+// and each Item of the system and main queues that finds nothing, up to the 6th) one more message is
+// accepted by the real RouteSendAlias / RouteCallAlias / SendExitMeta. Whatever the point - in
+// particular between the runner's last look and its Running->Sleep transition - the message must be
+// handled without further traffic, exactly once, and the meta-process ends asleep (or terminated, for
+// the exit signal) with empty queues.
+func VerifC02MetaRecheck() {
+	lib.VerifClockAdvance(0)
+	n := vfNode()
+	p, _ := vfProc(n, 2000, "", gen.ProcessStateRunning, 0)
+	b := &c02MetaB{}
+	count := lib.VerifPick("look", 6) + 1
+	kind := lib.VerifPick("kind", 3)
+	m := &meta{p: p, behavior: b, priority: gen.MessagePriorityNormal, state: int32(gen.MetaStateSleep)}
+	m.id = gen.Alias{Node: n.name, Creation: n.creation, ID: [3]uint64{70, 71, 72}}
+	m.log = createLog(gen.LogLevelDisabled, n.dolog)
+	fired := 0
+	var sendErr error
+	fire := func() {
+		fired++
+		from := gen.PID{Node: n.name, ID: 3000, Creation: n.creation}
+		switch kind {
+		case 0:
+			sendErr = n.RouteSendAlias(from, m.id, gen.MessageOptions{}, 7)
+		case 1:
+			sendErr = n.RouteCallAlias(from, m.id, gen.MessageOptions{Ref: gen.Ref{Node: n.name, Creation: n.creation, ID: [3]uint64{5, 0, 0}}}, 7)
+		default:
+			sendErr = p.SendExitMeta(m.id, gen.TerminateReasonShutdown)
+		}
+	}
+	m.main = &c02Window{QueueMPSC: lib.NewQueueMPSC(), count: &count, fire: fire}
+	m.system = &c02Window{QueueMPSC: lib.NewQueueMPSC(), count: &count, fire: fire}
+	p.metas.Store(m.id, m)
+	n.aliases.Store(m.id, p)
+	first := lib.VerifPick("first", 2)
+	if first == 1 {
+		qm := gen.TakeMailboxMessage()
+		qm.Type = gen.MailboxMessageTypeRegular
+		qm.Message = 1
+		m.main.Push(qm)
+	}
+	m.handle()
+	for i := 0; i < 6; i++ {
+		lib.VerifYield()
+	}
+	if fired == 0 {
+		// the run had fewer empty looks than the chosen point: nothing was sent
+		lib.VerifAssert(b.handled == first, "the queued message is handled")
+		return
+	}
+	lib.VerifAssert(fired == 1 && sendErr == nil, "a send to a live meta-process is accepted")
+	if kind == 2 {
+		lib.VerifAssert(b.terms == 1, "an exit signal accepted while the meta-process was about to go to sleep terminates it without further traffic, once")
+		lib.VerifAssert(m.state == int32(gen.MetaStateTerminated), "the meta-process is terminated afterwards")
+	} else {
+		lib.VerifAssert(b.handled+b.calls == first+1, "a message accepted while the meta-process was about to go to sleep is handled without further traffic, exactly once")
+		lib.VerifAssert(m.state == int32(gen.MetaStateSleep), "the meta-process is asleep afterwards")
+		lib.VerifAssert(m.main.(*c02Window).QueueMPSC.Item() == nil && m.system.(*c02Window).QueueMPSC.Item() == nil, "no message is left behind with the meta-process asleep")
+	}
+	lib.VerifReach("late meta message handled")
+}
